@@ -2,6 +2,7 @@ package props
 
 import (
 	"os"
+	"time"
 	"testing"
 
 	"verif/harness/core"
@@ -81,3 +82,8 @@ func TestC16(t *testing.T) { core.Run(t, P16) }
 func TestC17(t *testing.T) { core.Run(t, P17) }
 
 func TestC18(t *testing.T) { core.Run(t, P18) }
+
+func TestC02(t *testing.T) {
+	core.StartWatchdog(20 * time.Second)
+	core.RunWatched(t, P02)
+}
